@@ -365,8 +365,10 @@ def run(run: Run) -> int:
     lines += ["mix " + tokens(c) for c in cases]
     replies = run_driver("formula", lines)
     assert len(replies) == len(cases), (len(replies), len(cases))
+    rendered = []
     for c, rep in zip(cases, replies):
         text = render(c, tbl, run.rng)
+        rendered.append(text)
         inp = dict(string=text, expr=c)
         run.count(key=text, nontrivial=count_components(c) >= 2 or has_nesting(c),
                   sample=text if len(text) < 200 else None, tag=c[0] + ("-nested" if has_nesting(c) else ""))
@@ -419,6 +421,12 @@ def run(run: Run) -> int:
             run.violation("string form differs from the corresponding call", inp,
                           string_result=str(pyside.struct_keys(f.structure)), string_density=f.density,
                           call_result=str(pyside.struct_keys(g.structure)), call_density=g.density)
+    # the tokenisation of the mixture sub-grammars: the Lean model of the top-level grammar
+    # (Model/GrammarMix.lean `parseTop`, driver `grammar parsemix`) reads each rendered string to a
+    # term; the term, evaluated with the real mixing functions, must equal formula(string)
+    from .. import grammar_lib as G
+    from .. import grammar_mix as M
+    M.check_mixtures(run, "public", G.ref_table(), tbl, ["tblgen"], rendered, strict=True)
     # formula-unit rescaling: k*f in place of f leaves mass fractions and density unchanged
     m = 300 if run.tier == "quick" else 5000
     for i in range(m):
@@ -445,8 +453,9 @@ def run(run: Run) -> int:
                 or not close(a.density, b.density):
             run.violation("rescaling a component's formula unit changes the mixture", inp)
     return run.finish(RULE, assumptions=[
-        "the tokenisation of the mixture sub-grammars by pyparsing is not modelled: the model evaluates the "
-        "expression the string was rendered from (parse actions are modelled, Model/Mix.lean)",
+        "two models meet at the mixture strings: Model/Mix.lean evaluates the expression a string was rendered "
+        "from (semantic actions), Model/GrammarMix.lean `parseTop` reads the string itself to a term "
+        "(tokenisation, ordered choice); pyparsing is modelled, not verified",
         "floating-point rounding compared at 1e-9"])
 
 
